@@ -5,7 +5,7 @@ VERIF = os.path.dirname(os.path.dirname(os.path.abspath(__file__)))
 
 CLAIMS = {
  "C01": dict(
-   text="TLC exhaustively checks Dec(Enc(v)) = v, DumpError iff unsupported leaf, and 'no strict prefix loads' on the reference encoder/decoder (spec/Serializer.tla) for a bounded value grammar; the same values (TLC-enumerated) plus seeded generated values far beyond the bounds are pushed through the real dumps/loads, dump/load, dumps_internal and a real popen channel, and every recorded result is judged by TLC against the reference (spec/SerCases.tla).",
+   text="TLC exhaustively checks Dec(Enc(v)) = v, DumpError iff unsupported leaf, and 'no strict prefix loads' on the reference encoder/decoder (spec/Serializer.tla) for a bounded value grammar; the same values (TLC-enumerated) plus seeded generated values far beyond the bounds are pushed through the real dumps/loads, dump/load, dumps_internal and a real popen channel, and every recorded result is judged by TLC against the reference (spec/SerCases.tla). Values also travel over socket and via= gateways, including multi-megabyte ones (compared through length and SHA-1 by TLC), next to an unrelated channel whose coercion was reconfigured; every ordered pair of leaves of different types and instances of subclasses next to their base type are among the values.",
    note="Trusted: the Python<->model value projection (mbt/pyval.py), TLC, struct.pack for float bits. Bounded grammar in TLC; beyond it conformance sampling only.",
    technique="TLA+ reference codec model-checked with TLC; TLC-enumerated + generated values replayed into real code; recorded results validated by TLC",
    ref="5/C01"),
@@ -15,12 +15,12 @@ CLAIMS = {
    technique="TLA+ reference codec; byte-for-byte conformance of recorded dumps()/loads() results evaluated by TLC; multi-interpreter replay",
    ref="5/C12"),
  "C13": dict(
-   text="TLC shows the decoder machine total (typed outcome, progress, termination, no channel without factory) on all opcode soups of bounded length (raw alphabet and structured tokens); the real loads()/load() is run on TLC's token soups, raw soups, random bytes and every prefix/1-byte mutation of valid dumps under an audit hook, and TLC judges each recorded outcome (allowed exception class, supported types only, equality on well-formed streams, no prefix loads).",
+   text="TLC shows the decoder machine total (typed outcome, progress, termination, no channel without factory) on all opcode soups of bounded length (raw alphabet and structured tokens); the real loads()/load() is run on TLC's token soups, raw soups, random bytes and every prefix/1-byte mutation of valid dumps under an audit hook, and TLC judges each recorded outcome (allowed exception class, supported types only, equality on well-formed streams, no prefix loads). Malformed streams whose stack is thousands of containers deep when the error is detected are among the inputs.",
    note="Side effects are observed via sys.addaudithook; lenient acceptance of malformed input is allowed; memory-bomb length fields are a listed known finding (run under RLIMIT_AS).",
    technique="TLA+ decoder machine model-checked with TLC over bounded soups; TLC-enumerated tokens + mutations replayed into real loader; outcomes validated by TLC",
    ref="5/C13"),
  "C09": dict(
-   text="spec/WorkerPool.tla models spawn / _try_send_to_primary_thread / integrate_as_primary_thread / trigger_shutdown / _perform_spawn / waitall at critical-section granularity; TLC checks at-most-once, waitall truthfulness and, under weak fairness, that every accepted task runs, every waitall returns and the primary leaves after shutdown, for thread / main_thread_only / no-primary pools, and kills the un-fixed design (Fix_KeepPendingTask=FALSE). The real WorkerPool runs under a deterministic baton scheduler (DFS, random, PCT, post-yield and TLC-behaviour-hinted schedules); every distinct observable trace is judged by TLC with the property automaton spec/PoolAbs.tla.",
+   text="spec/WorkerPool.tla models spawn / _try_send_to_primary_thread / integrate_as_primary_thread / trigger_shutdown / _perform_spawn / waitall at critical-section granularity; TLC checks at-most-once, waitall truthfulness and, under weak fairness, that every accepted task runs, every waitall returns and the primary leaves after shutdown, for thread / main_thread_only / no-primary pools, and kills the un-fixed design (Fix_KeepPendingTask=FALSE). The real WorkerPool runs under a deterministic baton scheduler (DFS, random, PCT, post-yield and TLC-behaviour-hinted schedules); every distinct observable trace is judged by TLC with the property automaton spec/PoolAbs.tla. On a real popen worker a task running on a secondary pool thread when gateway.exit() arrives must still reach its last statement (spec/PoolRealCases.tla).",
    note="Trusted: simulated Lock/Event/Queue semantics, timed waits expire only at quiescence, preemption at synchronisation operations only. Bounded thread/task counts.",
    technique="TLA+ model of WorkerPool model-checked with TLC (safety+liveness, mutant); real pool under deterministic schedule exploration incl. TLC-generated schedules; traces validated by TLC against property automaton",
    ref="5/C09"),
@@ -35,7 +35,7 @@ CLAIMS = {
    technique='TLA+ model of channel send/dispatch/receive/close/setcallback model-checked with TLC; real Gateway+WorkerGateway pair under deterministic schedule exploration (sync-point and line-level preemption); every trace validated by TLC against the TLA+ property automaton',
    ref="5/C03"),
  "C07": dict(
-   text='spec/Gateway.tla with error closes: TLC checks the error is raised at most once, is delivered, and does not disturb ordering. Failures at every stream position (remote bodies, callbacks on either side, channel alive or dropped, after reconfigure) run on the real gateway pair in the simulator with a sibling channel; GatewayAbs.tla (TLC) demands RemoteError exactly once, only after all arrived items, never EOFError in its place, a proper error on the failing side, and a live receiver thread afterwards.',
+   text='spec/Gateway.tla with error closes: TLC checks the error is raised at most once, is delivered, and does not disturb ordering. Failures at every stream position (remote bodies, callbacks on either side, channel alive or dropped, after reconfigure) run on the real gateway pair in the simulator with a sibling channel; GatewayAbs.tla (TLC) demands RemoteError exactly once, only after all arrived items, never EOFError in its place, a proper error on the failing side, and a live receiver thread afterwards. On a real gateway remote code sends text and then fails while the initiator reads through makefile('r'); TLC requires exactly one RemoteError among all reads, waitclose and receive (spec/ChanFileErrCases.tla). The program families also run on a gateway whose string coercion was reconfigured and on the scripted socket.',
    note='Trusted: simulated Lock/Event/Queue/pipe semantics; preemption at synchronisation/IO operations and at source lines of listed functions; virtual time. TLC instance: one channel, K<=3 items, <=3 receivers. Oracle = property automaton spec/GatewayAbs.tla evaluated by TLC on every distinct trace.',
    technique='TLA+ model of channel send/dispatch/receive/close/setcallback model-checked with TLC; real Gateway+WorkerGateway pair under deterministic schedule exploration (sync-point and line-level preemption); every trace validated by TLC against the TLA+ property automaton',
    ref="5/C07"),
@@ -55,12 +55,12 @@ CLAIMS = {
    technique='TLA+ model of channel dispatch/close model-checked with TLC; real gateway pair in a deterministic simulator with the connection cut at every byte offset (two failure modes, two IO classes) x schedules; every trace validated by TLC against the TLA+ property automaton',
    ref="5/C04"),
  "C08": dict(
-   text='spec/Wire.tla models N writer threads, atomic pipe writes vs. partial socket sends with and without the write lock, arbitrary read chunking and a cut losing any suffix; TLC checks that the decoded frames are exactly sent frames in per-writer order (frame-granular interleaving), kills the lock-free socket design, and proves arrival under fairness. The real Message.to_io/from_io run over the real Popen2IO and SocketIO on scripted files/sockets with generated frame programs (codes 0-7, ids over the signed 32-bit range, payloads 0-200000 bytes), 1-byte/ random chunkings, partial sends, cuts, random/PCT schedules and line-level preemption; concurrent senders of MB-sized items run on real popen, socket and via gateways. Every recorded execution is judged by TLC (spec/WireCases.tla).',
+   text='spec/Wire.tla models N writer threads, atomic pipe writes vs. partial socket sends with and without the write lock, arbitrary read chunking and a cut losing any suffix; TLC checks that the decoded frames are exactly sent frames in per-writer order (frame-granular interleaving), kills the lock-free socket design, and proves arrival under fairness. The real Message.to_io/from_io run over the real Popen2IO and SocketIO on scripted files/sockets with generated frame programs (codes 0-7, ids over the signed 32-bit range, payloads 0-200000 bytes), 1-byte/ random chunkings, partial sends, cuts, random/PCT schedules and line-level preemption; concurrent senders of MB-sized items run on real popen, socket and via gateways. Every recorded execution is judged by TLC (spec/WireCases.tla). The worker is also the sending side: several threads, or greenlets of a gevent-hosted socket worker, send 8 MB frames at once.',
    note="Trusted: one write() on a buffered pipe file is atomic; socket sendall = loop of partial sends; payload identity via (type, id, length, uniform fill byte). Real-transport part cannot choose schedules.",
    technique="TLA+ wire model model-checked with TLC (incl. mutant); real framing code over scripted files/sockets under explored schedules/chunkings + real transports; executions validated by TLC against the TLA+ property automaton",
    ref="5/C08"),
  "C14": dict(
-   text="spec/ExecSched.tla models _local_schedulexec (wait on _executetask_complete with the 1 s time-out firing only at quiescence, clear, spawn), the main_thread_only mailbox hand-over, the main thread and executetask's epilogue for ALL histories of outcomes {return, raise, SystemExit, blocked} x {sequential, overlapping} of length <= 3 (thorough 4); TLC checks start order, that the deadlock error is only produced while a body occupies the main thread and never for a sequential submission, that every submission is answered, and kills two mutants (event set on the success path only; event cleared after spawn). The same histories run on the real WorkerGateway(main_thread_only)+initiator in the simulator (line-level preemption in the scheduling functions) and on real popen//execmodel=main_thread_only workers; TLC judges every trace with spec/ExecAbs.tla (main thread, one at a time, submission order, no false deadlock, earlier body undisturbed).",
+   text="spec/ExecSched.tla models _local_schedulexec (wait on _executetask_complete with the 1 s time-out firing only at quiescence, clear, spawn), the main_thread_only mailbox hand-over, the main thread and executetask's epilogue for ALL histories of outcomes {return, raise, SystemExit, blocked} x {sequential, overlapping} of length <= 3 (thorough 4); TLC checks start order, that the deadlock error is only produced while a body occupies the main thread and never for a sequential submission, that every submission is answered, and kills two mutants (event set on the success path only; event cleared after spawn). The same histories run on the real WorkerGateway(main_thread_only)+initiator in the simulator (line-level preemption in the scheduling functions) and on real popen//execmodel=main_thread_only workers; TLC judges every trace with spec/ExecAbs.tla (main thread, one at a time, submission order, no false deadlock, earlier body undisturbed). main_thread_only is also requested through Group.set_execmodel and observed on a socket worker hosted by a main_thread_only gateway.",
    note="Trusted: simulator primitives and virtual time (1 s wait expires only at quiescence); KeyboardInterrupt outcome not driven in the simulator. Histories bounded in length.",
    technique="TLA+ model of main_thread_only scheduling model-checked with TLC over all bounded histories (incl. 2 mutants); real worker+initiator under deterministic schedule exploration and real popen workers; traces validated by TLC against the TLA+ property automaton",
    ref="5/C14"),
@@ -80,7 +80,7 @@ CLAIMS = {
    technique="TLA+ decision-table model of the rsync receiver model-checked with TLC over the full pair-complete case space (incl. 2 mutants); cases replayed on the real RSync over a real gateway; outcomes validated by TLC",
    ref="5/C17"),
  "C11": dict(
-   text="spec/Termination.tla models the worker's exit ladder (EOF/terminate seen, pool shutdown, waitall 5 s, SIGINT to itself, waitall 10 s, os._exit) against an environment automaton (idle, blocked in receive, busy, sleeping, swallowing KeyboardInterrupt, stopped, dead) with a discrete clock; TLC checks that the worker is gone within 15 ticks by the expected rung and kills the sys.exit-instead-of-os._exit mutant. Real initiator processes create workers over popen / popen//python= / via / socket with thread, main_thread_only and gevent execmodels running generated activities and are SIGKILLed, close the connection, _exit, or die in the middle of a frame or of the bootstrap; every worker pid is watched in /proc and TLC compares the observed time-to-exit with the model's rung deadline (spec/TermCases.tla). The worker side also runs in the deterministic simulator: the stream ends at every point of generated conversations and GatewayAbs.tla (TLC) requires the receiver thread, the pool and every body to wind down (nothing left blocked).",
+   text="spec/Termination.tla models the worker's exit ladder (EOF/terminate seen, pool shutdown, waitall 5 s, SIGINT to itself, waitall 10 s, os._exit) against an environment automaton (idle, blocked in receive, busy, sleeping, swallowing KeyboardInterrupt, stopped, dead) with a discrete clock; TLC checks that the worker is gone within 15 ticks by the expected rung and kills the sys.exit-instead-of-os._exit mutant. Real initiator processes create workers over popen / popen//python= / via / socket with thread, main_thread_only and gevent execmodels running generated activities and are SIGKILLed, close the connection, _exit, or die in the middle of a frame or of the bootstrap; every worker pid is watched in /proc and TLC compares the observed time-to-exit with the model's rung deadline (spec/TermCases.tla). The worker side also runs in the deterministic simulator: the stream ends at every point of generated conversations and GatewayAbs.tla (TLC) requires the receiver thread, the pool and every body to wind down (nothing left blocked). Composite activities (a sleeping main-thread body next to a flooding or a short-lived one), flooded workers, lingering user threads / exit hooks (listed finding) are part of the plan; the simulated worker side also runs with line-level preemption inside the pool.",
    note="Wall-clock bounds with fixed slack (3-5.5 s); via= adds one 5 s rung per forwarding level; the OS chooses schedules. Known finding: gevent workers with non-cooperative bodies.",
    technique="TLA+ model of the worker exit ladder with discrete clock model-checked with TLC (incl. mutant); real initiator/worker processes with generated activities and death modes; timed observations validated by TLC against the model's rung deadlines",
    ref="5/C11"),
@@ -95,7 +95,7 @@ CLAIMS = {
    technique="TLA+ handshake model instantiated with an AST projection of the shipped sources, checked with TLC; real execnet-less interpreters 3.10-3.13 on every source bootstrap path; transcripts validated by TLC against the import-bootstrapped baseline",
    ref="5/C15"),
  "C16": dict(
-   text="spec/Proxy.tla models ProxyIO + serve_proxy_io (one channel item per master write, forwarder callback into the sub's pipe, one item per complete frame upstream, ChannelFileRead buffering on the master, control channel); TLC checks that the proxied connection is a FIFO byte stream in both directions, control requests are answered in order and kill reaches the sub (42k states). The transcript program set (all serialisable types and sizes up to 4 MB, sub-channels, callbacks, errors, closes, kwargs, stdio floods, two concurrent senders of 150 kB items) runs on {popen, popen//python=, socket//installvia, popen//via} x {thread, main_thread_only, gevent}; TLC compares every transcript with the direct popen one; wait/kill on proxied gateways are observed through the sub's pid.",
+   text="spec/Proxy.tla models ProxyIO + serve_proxy_io (one channel item per master write, forwarder callback into the sub's pipe, one item per complete frame upstream, ChannelFileRead buffering on the master, control channel); TLC checks that the proxied connection is a FIFO byte stream in both directions, control requests are answered in order and kill reaches the sub (42k states). The transcript program set (all serialisable types and sizes up to 4 MB, sub-channels, callbacks, errors, closes, kwargs, stdio floods, two concurrent senders of 150 kB items) runs on {popen, popen//python=, socket//installvia, popen//via} x {thread, main_thread_only, gevent}; TLC compares every transcript with the direct popen one; wait/kill on proxied gateways are observed through the sub's pid. The matrix includes a socket worker hosted by a gevent gateway, concurrent multi-megabyte and tiny senders, and control requests behind a pending wait and after the connection closed; spec/ProxyCtl.tla models the forwarder's receiver thread shared by data and control requests.",
    note="Equivalence on deterministic sequential programs; timing-dependent numbers excluded. Known finding: socket gateways ignore execmodel=.",
    technique="TLA+ proxy model (refinement to a FIFO byte stream) model-checked with TLC; channel-program transcripts on the full transport x execmodel matrix validated by TLC against the popen baseline",
    ref="5/C16"),
